@@ -178,6 +178,10 @@ def eq_list_names(f) -> Set[str]:
         if isinstance(n, ast.AugAssign) and isinstance(n.op, ast.Add) and isinstance(n.target, ast.Subscript) \
                 and const_str(n.target.slice) == "equations" and isinstance(n.value, ast.Name):
             out.add(n.value.id)
+        if isinstance(n, ast.Call) and isinstance(n.func, ast.Attribute) and n.func.attr == "extend" and len(n.args) == 1 \
+                and isinstance(n.args[0], ast.Name) and isinstance(n.func.value, ast.Subscript) \
+                and const_str(n.func.value.slice) == "equations":
+            out.add(n.args[0].id)
     return out
 
 
@@ -352,11 +356,13 @@ def mutations_of(f, name: str) -> List[ast.Call]:
     return out
 
 
-def value_roots(ctx, f, expr, *, through_len=False) -> Dict[str, Set[str]]:
+def value_roots(ctx, f, expr, *, through_len=False, follow_calls=False, _depth=0) -> Dict[str, Set[str]]:
     """Where the *values* of `expr` come from: {'params': names of parameters, 'keys': constant string subscripts / .pop / .get
     keys met on the way, 'calls': callee names}.  Follows reaching definitions (assignment values, loop iterables, list
     mutations by append/extend); does not follow control dependence, and does not look inside `len(...)` (a length carries
-    no element values)."""
+    no element values).  With `follow_calls`, a call that resolves to one repository function is looked through: the roots of
+    what the callee returns (component i of a returned tuple when the call's result is unpacked into a tuple target) are added,
+    the callee's parameters being traced back to the call's arguments."""
     res = {"params": set(), "keys": set(), "calls": set()}
     seen: Set[int] = set()
     rd = ctx.rd(f)
@@ -365,6 +371,8 @@ def value_roots(ctx, f, expr, *, through_len=False) -> Dict[str, Set[str]]:
         stack = [e]
         while stack:
             n = stack.pop()
+            if isinstance(n, ast.Compare) or (isinstance(n, ast.UnaryOp) and isinstance(n.op, ast.Not)):
+                continue            # a truth value carries no element values (e.g. a flag computed from another attribute)
             if isinstance(n, ast.Call):
                 cn = call_name(n)
                 if cn == "len" and not through_len:
@@ -373,6 +381,8 @@ def value_roots(ctx, f, expr, *, through_len=False) -> Dict[str, Set[str]]:
                     res["calls"].add(cn)
                 if cn in ("pop", "get") and n.args and const_str(n.args[0]) is not None:
                     res["keys"].add(const_str(n.args[0]))
+                if follow_calls:
+                    into_callee(n, None)
             if isinstance(n, ast.Subscript) and const_str(n.slice) is not None:
                 res["keys"].add(const_str(n.slice))
             if isinstance(n, ast.Name) and isinstance(n.ctx, ast.Load):
@@ -397,6 +407,9 @@ def value_roots(ctx, f, expr, *, through_len=False) -> Dict[str, Set[str]]:
                     visit_defs(name, rd.defs_reaching_at(d, name))      # the value before the augmentation
                 if v is not None:
                     walk_expr(v)
+                elif follow_calls and unpack_position(d, name) is not None and into_callee(d.value, unpack_position(d, name)):
+                    for a in list(d.value.args) + [k.value for k in d.value.keywords]:
+                        walk_expr(a)        # conservative: whatever is handed to the callee may reach the result
                 else:
                     for h in header_exprs(d):
                         if isinstance(h, ast.stmt):
@@ -411,6 +424,39 @@ def value_roots(ctx, f, expr, *, through_len=False) -> Dict[str, Set[str]]:
             for c in mutations_of(f, n.id):
                 for a in c.args:
                     walk_expr(a)
+
+    def unpack_position(d, name):
+        """`a, b, c = call(...)`: position of `name` among the targets."""
+        if isinstance(d, ast.Assign) and len(d.targets) == 1 and isinstance(d.targets[0], (ast.Tuple, ast.List)) \
+                and isinstance(d.value, ast.Call):
+            for i, t in enumerate(d.targets[0].elts):
+                if isinstance(t, ast.Name) and t.id == name:
+                    return i
+        return None
+
+    def into_callee(call, pos) -> bool:
+        if _depth >= 2:
+            return False
+        g = resolve_single(ctx, f, call)
+        if g is None:
+            return False
+        rets = returns_of(g)
+        if not rets:
+            return False
+        binding = bind_args(g, call)
+        for r in rets:
+            e = r.value
+            if pos is not None:
+                if not (isinstance(e, ast.Tuple) and pos < len(e.elts)):
+                    return False
+                e = e.elts[pos]
+            sub = value_roots(ctx, g, e, through_len=through_len, follow_calls=True, _depth=_depth + 1)
+            res["keys"] |= sub["keys"]
+            res["calls"] |= sub["calls"]
+            for p_ in sub["params"]:
+                if p_ in binding:
+                    walk_expr(binding[p_])
+        return True
 
     seen_mut: Set[Tuple[str, str]] = set()
     walk_expr(expr)
@@ -652,3 +698,35 @@ def flag_arm_when_false(test, flag: str) -> Optional[bool]:
                 return c is True
         return None
     return val(test)
+
+
+REORDERERS = {"sorted", "reversed", "set", "frozenset", "shuffle", "permutation", "unique", "flip"}
+
+
+def iterates_in_order(ctx, f, it, pname: str) -> Optional[bool]:
+    """Does a loop over `it` visit the elements of the parameter `pname` front to back?  True: `p`, `enumerate(p)`,
+    `zip(p, ...)`, `range(len(p))` (index loop), `list(p)`, `p[:]`; False: a re-ordering wrapper (sorted/reversed/set/..., a
+    slice with bounds or step); None: unrecognised."""
+    if isinstance(it, ast.Name):
+        if it.id == pname and is_param(ctx, f, it):
+            return True
+        v = single_value(ctx, f, it)
+        return iterates_in_order(ctx, f, v, pname) if v is not None and not isinstance(v, ast.Name) else None
+    if isinstance(it, ast.Call):
+        cn = call_name(it)
+        if cn == "enumerate" and it.args:
+            return iterates_in_order(ctx, f, it.args[0], pname)
+        if cn == "zip" and it.args:
+            rs = [iterates_in_order(ctx, f, a, pname) for a in it.args]
+            return True if any(r is True for r in rs) else (False if any(r is False for r in rs) else None)
+        if cn == "range" and len(it.args) == 1 and isinstance(it.args[0], ast.Call) and call_name(it.args[0]) == "len" \
+                and len(it.args[0].args) == 1:
+            return iterates_in_order(ctx, f, it.args[0].args[0], pname)
+        if cn in ("list", "tuple", "iter") and len(it.args) == 1:
+            return iterates_in_order(ctx, f, it.args[0], pname)
+        if cn in REORDERERS and it.args and iterates_in_order(ctx, f, it.args[0], pname) is not None:
+            return False
+    if isinstance(it, ast.Subscript) and isinstance(it.slice, ast.Slice) and iterates_in_order(ctx, f, it.value, pname) is not None:
+        sl = it.slice
+        return sl.lower is None and sl.upper is None and sl.step is None
+    return None
